@@ -55,6 +55,9 @@ func runBoolean(entry int, ct c2.ClipType, fr c2.FillRule, subj, clip Paths) (so
 // (or passes within 2.5 units of it), "" if none.
 func attribute(q P, evs []c2.VerifEvent) string {
 	for _, ev := range evs {
+		if ev.Kind != "split-drop-path" && ev.Kind != "split-drop-tri" && ev.Kind != "join" {
+			continue // e.g. "offset-raw": an observation, not a discard site
+		}
 		ps := Paths{ev.Pts}
 		if w, on := kit.Wind(ps, q); w != 0 || on || kit.MinDist(q, ps, true) <= 2.5 {
 			return ev.Kind
@@ -172,4 +175,35 @@ func hasInteraction(all Paths) bool {
 		}
 	}
 	return false
+}
+
+// rawOffsetPaths extracts the raw offset curves recorded by the offset-raw hook.
+func rawOffsetPaths(evs []c2.VerifEvent) Paths {
+	var ps Paths
+	for _, e := range evs {
+		if e.Kind == "offset-raw" {
+			ps = append(ps, e.Pts)
+		}
+	}
+	return ps
+}
+
+// engineExcuse decides whether a mismatch at q of an operation that ends in an internal
+// union (offsetting, Minkowski) falls under a listed engine finding: a lobe discarded by
+// the self-intersection repair (F29, by call site) or a near-degenerate union input (F30,
+// class predicate evaluated on the raw curves the union really received).
+func engineExcuse(prop string, q P, evs []c2.VerifEvent, raw Paths, cache *int) bool {
+	if k := attribute(q, evs); k != "" && kfActive(prop, kfKeyForEvent(k)) {
+		return true
+	}
+	if !kfActive(prop, "class:near-degenerate") {
+		return false
+	}
+	if *cache == 0 {
+		*cache = 1
+		if in, _ := kit.NearDegenerate([]Paths{raw}, true, nearTol); in {
+			*cache = 2
+		}
+	}
+	return *cache == 2
 }
